@@ -257,8 +257,23 @@ partial def parseGo (cs : List Char) : Option GoVal :=
 
 def hasFloat32 (d : Dest) : Bool := !d.noFloat32
 
+/-- `float32` destinations: what is stored must be the nearest single-precision value and must not be an
+    infinity (answers are finite) -/
+def judge32 (t : Term) (g : String) : String :=
+  match t, g.toList with
+  | .flt b, 'f' :: '3' :: '2' :: ':' :: hs =>
+    match hexOfChars hs with
+    | some n =>
+      let got := UInt64.ofNat n
+      if isInfBits got && !isInfBits b then s!"FAIL Scan stored an infinity into a float32 for the finite answer {t.wire}, without an error"
+      else if got == round32 b then "ok"
+      else s!"FAIL Scan stored {g} into a float32, which is not the single-precision value nearest to the answer {t.wire}"
+    | none => "FAIL unparsable output"
+  | _, _ => "-"
+
 def scanJudge (d : Dest) (t : Term) (impl : String) : String :=
   if impl == "err" then "ok"
+  else if d = .float32 then (match impl.splitOn " " with | ["ok", g] => judge32 t g | _ => "FAIL unparsable output")
   else if hasFloat32 d then "-"
   else match impl.splitOn " " with
     | ["ok", g] =>
